@@ -459,7 +459,7 @@ async fn run_case(rep: &Report, case: &Case, keys: [iroh::SecretKey; 2], nonce0:
         let res = &dials[i];
         rep.count(&format!("attempts.kind.{}", att.kind.name()), 1);
         if matches!(res, DialRes::Budget) {
-            rep.inconclusive("dial-did-not-finish-within-budget");
+            rep.inconclusive(&format!("dial-did-not-finish-within-budget:{}", att.kind.name()));
             continue;
         }
         let dial_ok = matches!(res, DialRes::Ok { .. });
@@ -470,6 +470,7 @@ async fn run_case(rep: &Report, case: &Case, keys: [iroh::SecretKey; 2], nonce0:
                     j.v(&format!("C42:self-connect-succeeded:{}", att.kind.name()), format!("attempt {i}: connect to own id returned a Connection ({res:?}); hooks {:?}", case.hooks[x]));
                 } else {
                     rep.count("precondition.self_connect_failed", 1);
+                    rep.count(&format!("precondition.self_connect_failed.{}", att.kind.name()), 1);
                     rep.nontrivial(format!("self|{}|{}", att.kind.name(), n[x]).as_bytes());
                 }
                 let seq = hooks_for(&evs, x, true, &alpn);
@@ -788,6 +789,9 @@ fn main() {
             rep.require("peer_saw_hook_close.dialer", a.pick(40, 600));
             rep.require("attempts.all_accepted_established_and_echoed", a.pick(120, 1500));
             rep.require("precondition.self_connect_failed", a.pick(50, 800));
+            // per kind: a variant whose dials all hang to the budget must not leave the check HELD
+            rep.require("precondition.self_connect_failed.self-id-own-addr", a.pick(15, 200));
+            rep.require("precondition.self_connect_failed.self-id-peer-addr", a.pick(15, 200));
             if empty_alpn_safe {
                 rep.require("precondition.empty_alpn_failed", a.pick(50, 800));
             }
